@@ -3,13 +3,14 @@ import struct
 from fractions import Fraction
 from tools import common as C, wire, oracle as O
 
-LEAN_MODULES = ["SCP.C18", "SCP.C18Api"]
+LEAN_MODULES = ["SCP.C18", "SCP.C18Api", "SCP.C18Date"]
 THEOREMS = ["SCP.C18." + t for t in """addRule_false_iff addRule_false_noop deleteRule_false_iff deleteRule_false_noop lang_setLang step_rules
 run_rules run_frame applyOps_base applyOps_registrations history_eq_survivors tryPats_decline decline_noop api_effect echo_binds_by_name
 const_returns addDynamicType_false_iff addDynamicType_false_noop addDynamicTypeItem_false_iff addDynamicTypeItem_false_noop
 user_family_converts""".split()] + ["SCP.C18Api." + t for t in """addRuleText_unknown_language addRuleText_known_language
 addRuleText_false_noop addRuleText_false_iff addRuleText_other_languages addDynamicTypeItemText_unknown_family addDynamicTypeItemText_known_family
-addDynamicTypeItemText_false_noop""".split()]
+addDynamicTypeItemText_false_noop""".split()] + ["SCP.C18Date." + t for t in """setDateRule_rules setDateRule_api setDateRule_named
+setDateRule_add_comm setDateRule_idem setDateRule_frame""".split()]
 RULE = ("histories of 5-60 calls: add_rule (5 canned behaviours: constant, decline, echo a field, sum of the number fields, coin; 1-2 patterns "
         "from a pool incl. overlapping ones; languages en, tr and an unknown one; the same name twice; the same patterns under two names), "
         "delete_rule (existing / deleted / unknown names, unknown language), add_dynamic_type (new / duplicate), add_dynamic_type_item (chains "
@@ -76,6 +77,11 @@ def gen_history(rng, n):
                 op["word"] = rng.choice(["btc", "btc", "eth", "hello", "foo"])
                 op["v"] = rng.choice([1000, 42, 0.5])
             H.append(op)
+        elif k < 0.36:
+            # set_date_rule with the language's own configured patterns: a configuration call between the registrations that
+            # must leave them alone (it rebuilds the small_date rule inside the same rule list)
+            lang = rng.choice(["en", "tr", "en", "xx"])
+            H.append({"op": "date_rule", "lang": lang, "patterns": DATE_PATTERNS.get(lang, ["{NUMBER:day} {MONTH:month}"])})
         elif k < 0.47:
             H.append({"op": "rule_del", "lang": rng.choice(["en", "en", "tr", "xx"]), "name": rng.choice(NAMES + ["nope"])})
         elif k < 0.53:
@@ -91,6 +97,16 @@ def gen_history(rng, n):
             line = rng.choice([p[1] for p in POOL] + OTHER_LINES + ["4 zzpb to zzpd", "4 zzpc to zzpa", "2 zzqb + 3 zzqc", "5 zzpa to zzpb", "1 zzpd to zzpc"])
             H.append({"op": "exec", "lang": rng.choice(["en", "en", "tr"]), "text": line})
     return H
+
+
+def _date_patterns():
+    from tools import gen_config
+    d = dict(gen_config.anchors()[2])
+    d.pop("__first__", None)
+    return d
+
+
+DATE_PATTERNS = _date_patterns()
 
 
 def curated_histories(rng):
@@ -112,6 +128,10 @@ def curated_histories(rng):
             two = dict(when, patterns=["{TEXT:w} {NUMBER:n}", "{NUMBER:n} {TEXT:w}"], name="r3")
             out.append([two, other] + [{"op": "exec", "lang": "en", "text": t} for t in (f"pack 3 {word}", f"pack 2 {word} + 1", f"{word} 7 pack", f"5 voucher 1 {word}")])
             out.append([when, other] + ex[:2] + [dele("r2")] + ex + [other] + ex)
+            for lang in ("en", "tr"):
+                dr = {"op": "date_rule", "lang": lang, "patterns": DATE_PATTERNS[lang]}
+                out.append([when, other, dr] + ex + [dele("r1")] + ex[:2])
+                out.append([when, dr, other] + ex + [{"op": "exec", "lang": "en", "text": "5 march 2020"}])
     return out
 
 
@@ -183,6 +203,8 @@ def model_requests(H, lexed=None):
             req.append("\t".join(["rule_add_text", op["lang"], wire.hx(op["name"]), op["kind"], a1, a2, "|".join(wire.hx(p) for p in op["patterns"])]))
         elif o == "rule_del":
             req.append("\t".join(["rule_del", op["lang"], wire.hx(op["name"])]))
+        elif o == "date_rule":
+            req.append("\t".join(["date_rule_text", op["lang"], "|".join(wire.hx(p) for p in op["patterns"])]))
         elif o == "dtype_add":
             req.append("dtype_add\t" + wire.hx(op["name"]))
         elif o == "dtype_item":
